@@ -242,6 +242,9 @@ func (it *Interp) callBuiltin(b *ssa.Builtin, args []Value, call *ssa.CallCommon
 			m.Vals = append(m.Vals[:i:i], m.Vals[i+1:]...)
 		}
 		return nil
+	case "close":
+		it.chanClose(args[0])
+		return nil
 	case "panic":
 		panic(&GoPanic{Val: args[0], Msg: it.panicMsg(args[0]), Kind: "explicit", Pos: it.where()})
 	case "recover":
@@ -711,10 +714,12 @@ func (it *Interp) runPendingGoroutines() {
 	}
 }
 
-// chanSend / chanRecv: capacity-respecting semantics live in models_chan.go.
+// chanSend / chanRecv: capacity-respecting semantics live in models_chan.go, close() in chan_close.go.
 func (it *Interp) chanSend(ch Value, v Value) { it.chanSendModel(ch, v) }
 
-func (it *Interp) chanRecv(ch Value, commaOk bool) Value { return it.chanRecvModel(ch, commaOk) }
+func (it *Interp) chanRecv(ch Value, commaOk bool, chanType types.Type) Value {
+	return it.chanRecvModel(ch, commaOk, chanType)
+}
 
 func (it *Interp) selectOp(fr *frame, x *ssa.Select) Value {
 	it.abort("select is not modelled")
